@@ -326,6 +326,13 @@ impl downstream::PendingRequest for DatagramMultiplexer {
 }
 
 impl downstream::PendingDatagramMultiplexerRequest for DatagramMultiplexer {
+    fn protocol(&self) -> downstream::DatagramProtocol {
+        match self.stream.request().authority().map(|a| a.as_str()) {
+            Ok(ICMP_AUTHORITY) => downstream::DatagramProtocol::Icmp,
+            _ => downstream::DatagramProtocol::Udp,
+        }
+    }
+
     fn client_address(&self) -> io::Result<IpAddr> {
         self.stream.request().client_address()
     }
